@@ -456,10 +456,21 @@ def render_fragment(R, m, atoms, descriptors, style=None, slash=None, annot=None
     return ''.join(t[1] for t in out), pos_of
 
 
-def label_stream(prefix=''):
+def label_stream(prefix='', style='letters'):
+    """unique labels: a, b, .. (letters) | x1, x2, .. (numbered: one stem, different digits) | 1, 2, .. (digits)"""
+    if style == 'numbered':
+        for n in itertools.count(1):
+            yield '%sx%d' % (prefix, n)
+    if style == 'digits':
+        for n in itertools.count(1):
+            yield '%s%d' % (prefix, n)
     for n in itertools.count(1):
         for t in itertools.product('abcdefghijklmnopqrstuvwxyzABCDEFGHIJKLMNOPQRSTUVWXYZ', repeat=n):
             yield prefix + ''.join(t)
+
+
+def label_style(R):
+    return R.choice(['letters', 'letters', 'letters', 'numbered', 'digits'])
 
 
 ORDER_SYM = {1: '', 1.5: '', 2: '=', 3: '#'}
@@ -469,24 +480,37 @@ def cut_descriptors(R, m, owner, kinds=('$', '><'), labels=None, feats=None):
     """one uniquely labelled complementary descriptor pair per cut bond.
     returns (desc[frag][atom] -> list of texts, base graph) or (None, None) when >4 cuts on a pair"""
     nfr = max(owner) + 1
-    labels = labels or label_stream()
+    labels = labels or label_stream(style=label_style(R))
     feats = feats if feats is not None else set()
     desc = [defaultdict(list) for _ in range(nfr)]
     base = nx.Graph()
     base.add_nodes_from(range(nfr))
+    groups = []
     for b in sorted(m.bonds, key=sorted):
         o = m.bonds[b]
         i, j = sorted(b)
         fi, fj = owner[i], owner[j]
         if fi == fj:
             continue
-        lab = next(labels)
-        kind = R.choice(kinds)
-        if kind == '$':
-            di, dj = '[$%s]' % lab, '[$%s]' % lab
+        # cuts of equal order that leave ONE atom (the hub) towards the same other fragment may carry identical
+        # descriptors: whichever way they are paired, the same molecule results
+        cand = [g for g in groups if g['key'] == (fi, fj, o) and
+                ((g['hub'] is None and (g['first'][0] == i) != (g['first'][1] == j)) or g['hub'] == ('i', i) or g['hub'] == ('j', j))]
+        if cand and R.random() < 0.5:
+            g = cand[0]
+            if g['hub'] is None:
+                g['hub'] = ('i', i) if g['first'][0] == i else ('j', j)
+            di, dj = g['d']
+            feats.add('identical_descriptors_on_one_atom')
         else:
-            feats.add('kind_><')
-            di, dj = ('[>%s]' % lab, '[<%s]' % lab) if R.random() < .5 else ('[<%s]' % lab, '[>%s]' % lab)
+            lab = next(labels)
+            kind = R.choice(kinds)
+            if kind == '$':
+                di, dj = '[$%s]' % lab, '[$%s]' % lab
+            else:
+                feats.add('kind_><')
+                di, dj = ('[>%s]' % lab, '[<%s]' % lab) if R.random() < .5 else ('[<%s]' % lab, '[>%s]' % lab)
+            groups.append(dict(key=(fi, fj, o), hub=None, first=(i, j), d=(di, dj)))
         desc[fi][i].append(ORDER_SYM[o] + di)
         desc[fj][j].append(ORDER_SYM[o] + dj)
         if o == 1.5:
@@ -701,7 +725,7 @@ def build_shared(R, m, owner, share=0.5, kinds=('$', '><'), style=None, feats=No
     nfr = max(owner) + 1
     m2 = copy.deepcopy(m)
     owner2 = list(owner)
-    labels = label_stream()
+    labels = label_stream(style=label_style(R))
     desc = [defaultdict(list) for _ in range(nfr)]
     base = nx.Graph()
     base.add_nodes_from(range(nfr))
